@@ -95,7 +95,7 @@ pub fn main(args: &[String]) {
         }));
         match r { Ok(x) => x, Err(e) => Err(format!("panic: {}", util::panic_msg(e))) }
     });
-    let mut rep = Report::new("accepted corpus programs (and the same programs with one token deleted, i.e. mostly rejected ones) re-laid-out twice from their token list: once with single blanks, once with random non-empty trivia runs (blank, tab, form feed, LF, CRLF, both comment kinds, `celldefine, `default_nettype, `timescale, `unconnected_drive, `line, `define, `undef, `pragma) in every gap that had whitespace, gaps inside compiler directives untouched, a blank kept after escaped identifiers; acceptance and whitespace-free tree must agree; non-trivial = both accepted; distinct by layout B");
+    let mut rep = Report::new("accepted corpus programs (and the same programs with one token deleted, i.e. mostly rejected ones) re-laid-out twice from their token list: once with single blanks, once with random non-empty trivia runs (blank, tab, form feed, LF, CRLF, both comment kinds, `celldefine, `default_nettype, `timescale, `unconnected_drive, `line, `define, `undef, `pragma) in every gap that had whitespace, gaps inside compiler directives untouched, a blank kept after escaped identifiers; acceptance and whitespace-free tree must agree; non-trivial = both accepted; distinct by layout B; plus pairs of accepted programs with `resetall between them, on its own line and with random trivia (comments, neutral directives) around it");
     for ((src, _, _, drop), r) in jobs.iter().zip(results.into_iter()) {
         match r {
             Ok((acc, b)) => { rep.case(b.as_bytes(), acc); rep.count(if acc { "both-accepted" } else { "both-rejected" }); rep.count(if drop.is_some() { "token-deleted" } else { "intact" });
@@ -104,6 +104,48 @@ pub fn main(args: &[String]) {
                 rep.case(src.as_bytes(), true);
                 let (what, detail) = match m.split_once("\n--- layout A:") { Some((w, d)) => (w.to_string(), d.to_string()), None => (m.clone(), String::new()) };
                 if what.contains("with an unbounded memo table]") && std::env::var("SVH_MEMO_INVENTORY_CHANGED").is_err() { rep.known("eviction-dependent-result", &what, &detail, ""); } else { rep.violation(&what, &detail, ""); }
+            }
+        }
+    }
+    // `resetall between top-level descriptions: two accepted programs A, B; A <trivia> `resetall <trivia> B must be accepted whenever
+    // A <newline> B is, and the tree (whitespace disregarded) must not depend on the trivia around the directive
+    {
+        let whole: Vec<&corpus::Item> = corp.iter().filter(|x| x.text.len() < 600 && !x.text.contains('`')).collect();
+        let npairs = if thorough { 1500 } else { 150 };
+        let mut rj: Vec<(String, String, String)> = vec![];
+        for _ in 0..npairs {
+            if whole.len() < 2 { break; }
+            let a = rng.pick(&whole).text.clone(); let b = rng.pick(&whole).text.clone();
+            let base = format!("{}\n{}", a.trim_end(), b);
+            if parse(&base).is_err() { continue; }
+            let plain = format!("{}\n`resetall\n{}", a.trim_end(), b);
+            let mut t1 = String::new(); for _ in 0..rng.range(1, 2) { t1.push_str(rng.pick_str(TRIVIA)); }
+            let mut t2 = String::new(); for _ in 0..rng.range(1, 2) { t2.push_str(rng.pick_str(TRIVIA)); }
+            if a.trim_end().ends_with('/') { t1.insert(0, ' '); }
+            let fancy = format!("{}{}`resetall{}{}", a.trim_end(), t1, t2, b);
+            rj.push((base, plain, fancy));
+        }
+        let rj = std::sync::Arc::new(rj); let rj2 = rj.clone();
+        let res = util::par_map(rj.len(), util::env_usize("SVH_THREADS", 16), move |i| {
+            let (_base, plain, fancy) = &rj2[i];
+            let r = std::panic::catch_unwind(std::panic::AssertUnwindSafe(|| -> Result<(), String> {
+                let pp = |t: &str| match preprocess_str(t, PathBuf::from("t.sv"), &no_defines(), &no_includes(), false, false, 0, 0) { Ok((x, _)) => x.text().to_string(), Err(_) => t.to_string() };
+                match (parse(plain), parse(fancy)) {
+                    (Ok((tp, _)), Ok((tf, _))) => { if toks::shape(&tp, &pp(plain)) != toks::shape(&tf, &pp(fancy)) {
+                        let agree = with_unbounded_memo(|| match (parse(plain), parse(fancy)) { (Ok((ua, _)), Ok((ub, _))) => toks::shape(&ua, &pp(plain)) == toks::shape(&ub, &pp(fancy)), _ => false });
+                        Err(format!("`resetall between two descriptions: the tree depends on the trivia around the directive{}", if agree { " [the trees agree with an unbounded memo table]" } else { "" })) } else { Ok(()) } }
+                    (Err(e), _) => Err(format!("two accepted descriptions are rejected once `resetall stands between them on its own line: {}", err_str(&e))),
+                    (Ok(_), Err(e)) => { let agree = with_unbounded_memo(|| parse(fancy).is_ok());
+                        Err(format!("`resetall between two descriptions is accepted on its own line but rejected with other trivia around it: {}{}", err_str(&e), if agree { " [acceptance agrees with an unbounded memo table]" } else { "" })) }
+                }
+            }));
+            match r { Ok(x) => x, Err(e) => Err(format!("panic: {}", util::panic_msg(e))) }
+        });
+        for ((_, plain, fancy), r) in rj.iter().zip(res.into_iter()) {
+            rep.case(fancy.as_bytes(), true); rep.count("resetall-between-descriptions");
+            if let Err(m) = r {
+                let detail = format!("--- `resetall on its own line:\n{}\n--- with trivia:\n{}", plain, fancy);
+                if m.contains("with an unbounded memo table]") && std::env::var("SVH_MEMO_INVENTORY_CHANGED").is_err() { rep.known("eviction-dependent-result", &m, &detail, ""); } else { rep.violation(&m, &detail, ""); }
             }
         }
     }
